@@ -345,8 +345,8 @@ func checkC05(cx *Ctx, r *Report) {
 		{"ValidateRedirectSignature:relayState", spKey, 2, []string{fv("RelayState")}, []string{fv("RelayState")}},
 		{"ValidateRedirectSignature:sigAlg", spKey, 3, []string{fv("SigAlg")}, []string{fv("SigAlg")}},
 		{"ValidateRedirectSignature:signature", spKey, 4, []string{fv("Signature")}, []string{fv("Signature")}},
-		{"DecodeAuthNRequest:message", matchFnKey(w, "xml.DecodeAuthNRequest"), 1, []string{fv("SAMLRequest")}, []string{fv("SAMLRequest")}},
-		{"DecodeAuthNRequest:encoding", matchFnKey(w, "xml.DecodeAuthNRequest"), 0, []string{fv("SAMLEncoding"), "const:urn:oasis:names:tc:SAML:2.0:bindings:URL-Encoding:DEFLATE", "const:"}, []string{fv("SAMLEncoding")}},
+		{"DecodeAuthNRequest:message", matchDecoder(w, "samlp.AuthnRequestType"), 1, []string{fv("SAMLRequest")}, []string{fv("SAMLRequest")}},
+		{"DecodeAuthNRequest:encoding", matchDecoder(w, "samlp.AuthnRequestType"), 0, []string{fv("SAMLEncoding"), "const:urn:oasis:names:tc:SAML:2.0:bindings:URL-Encoding:DEFLATE", "const:"}, []string{fv("SAMLEncoding")}},
 		{"CreateAuthRequest:relayState", matchStorage("CreateAuthRequest"), 4, []string{fv("RelayState")}, []string{fv("RelayState")}},
 		{"verifyPost:base64-input", matchCallee("(*encoding/base64.Encoding).DecodeString"), 1, []string{fv("SAMLRequest"), "param:*", "ext:*"}, nil},
 	}
@@ -378,7 +378,7 @@ func checkC05(cx *Ctx, r *Report) {
 	// the persisted request object is the decoded one
 	ls, sites := vf.CallArgSources(matchStorage("CreateAuthRequest"), 1)
 	if len(sites) > 0 {
-		r.checkSources("R-VFG", "sso:CreateAuthRequest:request", w.InstrPos(sites[0]), ls, []string{"alloc:xml.DecodeAuthNRequest/*", "decoded:samlp.AuthnRequestType", "const:zero"}, []string{"decoded:samlp.AuthnRequestType"}, false)
+		r.checkSources("R-VFG", "sso:CreateAuthRequest:request", w.InstrPos(sites[0]), ls, []string{"alloc:xml.*", "decoded:samlp.AuthnRequestType", "const:zero"}, []string{"decoded:samlp.AuthnRequestType"}, false)
 	}
 	// key material
 	ls, sites = vf.CallArgSources(matchFnKey(w, "signature.ValidateRedirect"), 3)
